@@ -29,6 +29,8 @@ for m in muts:
         last=[l for l in r.stdout.splitlines() if not l.startswith('VIOLATION')][-1:] or ['']
         res[c]=f"rc={r.returncode} violations_printed={n}; last line: {last[0][:200]}"
     subprocess.run(['git','-C','/repo','worktree','remove','--force',wt])
+    import hashlib; tag=hashlib.md5((wt+'\n').encode()).hexdigest()[:8]
+    subprocess.run(f'rm -rf /verif/build/bin-{tag} /verif/build/tmp/go-{tag}.* /verif/build/tmp/instr-{tag} /verif/build/tmp/exoverlay-{tag}',shell=True)
     d='/verif/seeded/'+m['id']; os.makedirs(d,exist_ok=True)
     open(d+'/patch.diff','w').write(diff)
     meta={"seed_id":m['id'],"property":m['checks'].split()[0],"origin":"own deliberate change (DESIGN.md section 8)","needs":m['what'],
